@@ -2056,14 +2056,20 @@ func (c *compiler) VisitFuncCall(e *ast.FuncCall) ast.VisitResult {
 				c.err("non-assignable passed as reference to %s", fun.funcDecl.Name())
 			}
 		} else {
-			eval, valTyp, isTemp := c.evaluate(e.Args[param.Name.Literal]) // compile each argument for the function
-			if valTyp.IsPrimitive() ||
-				(!ast.IsExternFunc(fun.funcDecl) && c.optimizationLevel >= 2 && meta.IsConst[param.Name.Literal]) {
+			argExpr := e.Args[param.Name.Literal]
+			eval, valTyp, isTemp := c.evaluate(argExpr) // compile each argument for the function
+			// the callee neither mutates nor frees a parameter it treats as constant
+			isConstParam := !ast.IsExternFunc(fun.funcDecl) && c.optimizationLevel >= 2 && meta.IsConst[param.Name.Literal]
+			if valTyp.IsPrimitive() || (isConstParam && (isTemp || !c.calleeMayAlias(argExpr, fun.funcDecl))) {
 				val = eval
 			} else { // function parameters need to be copied by the caller
 				dest := c.NewAlloca(valTyp.IrType())
 				c.claimOrCopy(dest, eval, valTyp, isTemp)
 				val = dest // do not add it to the temporaries, as the callee will free it
+				if isConstParam {
+					// unless it treats the parameter as constant, then the copy stays with the caller
+					c.scp.addTemporary(dest, valTyp)
+				}
 			}
 		}
 
@@ -2114,6 +2120,34 @@ func (c *compiler) VisitFuncCall(e *ast.FuncCall) ast.VisitResult {
 		}
 	}
 	return ast.VisitRecurse
+}
+
+// reports wether the storage of a non-temporary argument could also be reached by the callee
+// through another name: a Referenz parameter of the call, a global variable,
+// or a Referenz parameter of the calling function.
+// Only then is it unsafe to pass the caller's own value for a parameter the callee treats as constant.
+func (c *compiler) calleeMayAlias(arg ast.Expression, callee *ast.FuncDecl) bool {
+	for _, param := range callee.Parameters {
+		if param.Type.IsReference {
+			return true
+		}
+	}
+	for {
+		grouping, isGrouping := arg.(*ast.Grouping)
+		if !isGrouping {
+			break
+		}
+		arg = grouping.Expr
+	}
+	ident, isIdent := arg.(*ast.Ident)
+	if !isIdent {
+		return true // part of some other value (element, field, ...): be conservative
+	}
+	decl, isVar := ident.Declaration.(*ast.VarDecl)
+	if !isVar {
+		return true
+	}
+	return decl.IsGlobal || c.scp.lookupVar(decl).isRef
 }
 
 func (c *compiler) evaluateStructLiteral(structType *ddptypes.StructType, args map[string]ast.Expression) (value.Value, ddpIrType) {
